@@ -296,6 +296,60 @@ func main() {
 		}
 		println("C14/carrier/16bit", d.String())
 	}
+	// long byte and rune slices: conversions work on chunks internally; every window that starts / ends
+	// around the chunk size, at offsets into larger backing arrays
+	for _, n := range []int{9999, 10000, 10001, 20000, 25003} {
+		b := make([]byte, n)
+		for i := range b {
+			b[i] = byte(i*7 + 3)
+		}
+		cuts := []int{0, 1, 100, 9999, 10000, 10001, 12000, n - 1, n}
+		d := newDigest()
+		for _, lo := range cuts {
+			for _, hi := range cuts {
+				if lo > hi || hi > n {
+					continue
+				}
+				str := string(b[lo:hi])
+				d.w(uint32(len(str)))
+				d.str(str)
+				if detailCase == "C14/big/bytes/n="+itoa(int64(n)) {
+					dd := newDigest()
+					dd.str(str)
+					println(detailCase+"/lo="+itoa(int64(lo))+"/hi="+itoa(int64(hi)), itoa(int64(len(str))), dd.String())
+				}
+				back := []byte(str)
+				d.w(uint32(len(back)))
+				if len(back) > 0 {
+					d.w(uint32(back[0]) + uint32(back[len(back)-1])<<8)
+				}
+				dst := make([]byte, 3, 3)
+				d.w(uint32(copy(dst, str)))
+				d.w(uint32(len(append(dst[:1:1], str...))))
+			}
+		}
+		println("C14/big/bytes/n="+itoa(int64(n)), d.String())
+		rs := make([]rune, n)
+		for i := range rs {
+			rs[i] = rune('a' + i%26)
+			if i%1000 == 999 {
+				rs[i] = 0x1F600
+			}
+		}
+		d = newDigest()
+		for _, lo := range []int{0, 1, 9999, 10001} {
+			str := string(rs[lo:])
+			d.w(uint32(len(str)))
+			d.str(str)
+			d.w(uint32(len([]rune(str))))
+			cnt := 0
+			for range str {
+				cnt++
+			}
+			d.w(uint32(cnt))
+		}
+		println("C14/big/runes/n="+itoa(int64(n)), d.String())
+	}
 	literals()
 }
 
